@@ -51,6 +51,65 @@ def base_state(top_modes, ckpt="none", default_bottom=False):
     return st
 
 
+_DOMAINS = {}
+
+
+def mode_field_domains(fx):
+    """For every LexerMode variant field: the set of enum constants passed at *all* constructor sites,
+    or None when some site passes a non-constant.  {(variant, field): frozenset|None}"""
+    key = id(fx)
+    if key in _DOMAINS:
+        return _DOMAINS[key]
+    dom = {}
+
+    def note(variant, field, node):
+        c = F.const_of(F.strip(node))
+        k = (variant, field)
+        if c is not None and "::" in c:
+            if dom.get(k, frozenset()) is not None:
+                dom[k] = dom.get(k, frozenset()) | {c.split("::")[-1]}
+        else:
+            dom[k] = None
+
+    for fname, b in fx.bodies.items():
+        if fx.is_derive(fname):
+            continue
+        for node, par in F.walk(b["hir"]):
+            k = node.get("k")
+            # only modes that are actually put on the stack: direct argument of push_mode / Vec::push / insert
+            parent = par[-1] if par else {}
+            if not (F.is_call(parent) and F.callee(parent) in ("Lexer::push_mode", "std::vec::Vec::push", "std::vec::Vec::insert")):
+                continue
+            if k == "Call" and node.get("ctor"):
+                d = F.norm(node.get("def"))
+                if d.startswith("lexer_mode::LexerMode::"):
+                    for i, a in enumerate(node["args"]):
+                        note(d.split("::")[-1], str(i), a)
+            elif k == "Struct":
+                d = F.norm(node["res"].get("def", ""))
+                if d.startswith("lexer_mode::LexerMode::"):
+                    for f in node["fields"]:
+                        if "e" in f:
+                            note(d.split("::")[-1], f["name"], f["e"])
+    _DOMAINS[key] = dom
+    return dom
+
+
+def seed_mode_facts(fx, st, mode):
+    dom = mode_field_domains(fx)
+    vname = mode.variant
+    items = list(enumerate(mode.args)) + list(mode.fields.items())
+    for fld, v in items:
+        d = dom.get((vname, str(fld)))
+        if d and isinstance(v, Term):
+            st.vfacts[v.key()] = (frozenset(d), frozenset())
+
+
+# modes whose handler is only ever entered with a live checkpoint (owners), established by the
+# checkpoint-region exploration (rule R-CKPT/REGION)
+OWNER_MODES = {"MaybeMacroCallArgsOrLabel": "some", "MaybeMacroCallArgAssign": "some"}
+
+
 class ModeRun:
     """All paths of lex_token for one entry mode."""
 
